@@ -19,9 +19,9 @@ P = {
     "C02": ("proof", "Theorems: an accepted run returns a well-formed derivation tree whose leaves are the input tokens themselves (payloads opaque), each once and in order, and it is the only derivation tree of that input (C02_faithful, C02_tree, C02_that_tree, C02_unique), for every validB-accepted automaton. "
             "The user-visible value (userView, derive(Debug) rendering) is compared with the compiled parser's Ok value and with the Earley oracle's unique tree projected through the declared fieldsets; a panic on a sentence is a violation.",
             "§0, §6.1, §7 C02", "generic LR theorems + Debug-rendering correspondence"),
-    "C03": ("proof", "Theorem: under CoreSound every item in the top state is LR(0)-valid for the stack symbols (C03_viable) — the 'no shift past a dead prefix' core. "
-            "Partial: the converse (no early stop), the productivity step to Extendable and the pull count are established by the correspondence (counting iterator vs prefix-Earley oracle; canonical LR(1) reference driver for grammars with unproductive nonterminals), not by theorem.",
-            "§6.1(3), §7 C03", "viable-prefix theorem + compiled-parser correspondence with counting iterator"),
+    "C03": ("proof", "Theorems, for every token sequence and payload type: for every grammar and automaton accepted by the three proved-sound executable validators validB (Sound ∧ Complete), tightB (every item in the closure of its state's kernel, no empty target state) and productiveB, an error stop of the emitted loop has consumed a prefix of some sentence, its lookahead token is the first token that makes the prefix dead, and Err(None) only happens on a proper prefix of a sentence (C03_first_offending); the error is never early for any Complete automaton (C03_not_early); the run up to the error is independent of everything after the lookahead (C03_lookahead_only = nothing beyond the reported token is used); C03_viable. The validators run on the implementation's own machine and table for every generated grammar, and in the kernel on parser.rs (C03_front_end, C03_front_end_first_offending). "
+            "Partial: for grammars with unproductive nonterminals the reference is a canonical LR(1) driver (oracle, no theorem); the actual number of iterator pulls of the compiled parser is observed with a counting iterator.",
+            "§6.1(3), §7 C03", "first-offending-token theorem over validated automata + compiled-parser correspondence with counting iterator"),
     "C04": ("proof", "Theorems (every grammar, every automaton handed to machine_to_table): success ⇒ no state has two items demanding different actions on one lookahead column (C04_ok_conflict_free); a reported conflict is such a pair (C04_conflict_genuine); a repeated identical action is not a conflict (C04_setAction_*). "
             "Partial: 'the automaton is the LALR(1) automaton of the grammar' (§6.3) is not a theorem; the verdict is compared on every generated grammar with conflict-freeness of a specification-side canonical-LR(1)-merged-by-core construction (a different algorithm) and with the model.",
             "§6.3, §7 C04", "table-level theorems + verdict vs spec-side LALR(1) oracle"),
